@@ -382,6 +382,30 @@ fn enumerate(_tier: Tier, idx: u32, of: u32, cx: &mut Cx) -> CaseResult {
     crate::engine::force_remove(&sub);
     cx.add_evals(1);
     cx.inner_nontrivial += 1;
+
+    // ... and on 3000 files in ONE index hunk (default options) where whole directories are
+    // excluded whose own entries are followed by siblings that are kept, their contents by
+    // the contents of those siblings
+    for (i, patterns) in [vec!["/w0", "w2/f0002*"], vec!["w1"], vec!["/w0/**", "/w2"]].into_iter().enumerate() {
+        crate::engine::heartbeat();
+        let sub = cx.dir("one-big-hunk");
+        std::fs::create_dir_all(&sub).unwrap();
+        let mut cx2 = crate::engine::sub_cx(cx, sub.clone());
+        let case = Case {
+            opts: Opts::defaults(),
+            tree: tree::wide_tree(3000, 3, 1, crate::probes::plain_meta()),
+            patterns: patterns.iter().map(|s| s.to_string()).collect(),
+            basis_patterns: if i == 1 { Some(vec![]) } else { None },
+            via_file: i == 2,
+        };
+        run(&case, &mut cx2).map_err(|mut f| {
+            f.signature = format!("{}/probe-one-big-hunk", f.signature);
+            f
+        })?;
+        crate::engine::force_remove(&sub);
+        cx.add_evals(1);
+        cx.inner_nontrivial += 1;
+    }
     Ok(())
 }
 
